@@ -313,7 +313,14 @@ func (c *c09) printMsg(sb *strings.Builder, v PVal, mt string, p *pcfg) {
 			}
 			if !present && p.r.Intn(3) == 0 {
 				name := sf.JSON
-				ms = append(ms, func() { sb.WriteString(jstr([]byte(name)) + ":null") })
+				// an absent field is spelled null, or - repeated and map fields - as the empty array / object
+				lit := "null"
+				if sf.Card == "rep" && p.r.Intn(2) == 0 {
+					lit = "[]"
+				} else if sf.Card == "map" && p.r.Intn(2) == 0 {
+					lit = "{}"
+				}
+				ms = append(ms, func() { sb.WriteString(jstr([]byte(name)) + ":" + lit) })
 			}
 		}
 	}
